@@ -19,7 +19,11 @@ func init() {
 // ResendRequest ranges are compared with it. Separately: Logon sequence gaps.
 func c10(w *World) {
 	if w.W.Chance(1, 4) {
-		c10gap(w)
+		if w.W.Chance(1, 3) {
+			c10gapHistory(w)
+		} else {
+			c10gap(w)
+		}
 		return
 	}
 	role := []string{"acceptor", "initiator"}[w.W.Draw(2)]
@@ -257,13 +261,93 @@ func c10gap(w *World) {
 		if len(rr) != 1 {
 			w.Violate("gap-no-resend-request", role, fmt.Sprintf("Logon with 34=%d while %d was expected: got %q, want a ResendRequest", received, expectedLast+1, typesOf(replies)))
 		} else {
-			b, _ := GetInt(rr[0].Raw, TagBeginSeqNo)
-			if b != expectedLast+1 {
-				w.Violate("gap-wrong-begin", role, fmt.Sprintf("Logon with 34=%d while %d was expected: ResendRequest asks from 7=%d, the first missing number is %d", received, expectedLast+1, b, expectedLast+1))
-			}
+			checkGapRequest(w, role, rr[0].Raw, received, expectedLast+1)
 		}
 	}
 	sc.Teardown()
+}
+
+// checkGapRequest: the request starts at the first missing number and is a usable ResendRequest
+// (an EndSeqNo that is 0, "everything", or not below the start).
+func checkGapRequest(w *World, role string, raw []byte, received, firstMissing int) {
+	b, _ := GetInt(raw, TagBeginSeqNo)
+	if b != firstMissing {
+		w.Violate("gap-wrong-begin", role, fmt.Sprintf("Logon with 34=%d while %d was expected: ResendRequest asks from 7=%d, the first missing number is %d", received, firstMissing, b, firstMissing))
+	}
+	if e, has := GetInt(raw, TagEndSeqNo); !has || (e != 0 && e < b) {
+		w.Violate("gap-request-malformed", role, fmt.Sprintf("ResendRequest after a Logon gap carries 16=%d (present %v) with 7=%d: %s", e, has, b, short(raw)))
+	}
+}
+
+// c10gapHistory: the expected number is what an earlier real session over the same stores
+// received, not a number written into the store by hand.
+func c10gapHistory(w *World) {
+	role := []string{"acceptor", "initiator"}[w.W.Draw(2)]
+	buf := []int{0, 1, 10}[w.W.Draw(3)]
+	w.Cfg("role", role)
+	w.Cfg("buf", buf)
+	w.Cfg("mode", "logon-gap-after-earlier-session")
+	store := NewStore(w)
+	k := 1 + w.W.Draw(6)
+	gap := w.W.Draw(5) // 0: no gap
+	var acc *AccSide
+	connect := func(name string) (*Client, func()) {
+		if role == "acceptor" {
+			if acc == nil {
+				acc = w.StartAcceptor(AccCfg{HandlerBuf: buf, WriteTimeout: time.Minute, HBMin: 1, HBMax: 60, Store: store})
+			}
+			c := w.NewClient(acc, name, "PEER", "LIB")
+			return c, func() { c.P.C.CloseNow() }
+		}
+		a, b := w.Net.Pipe(name, -1, -1)
+		c := &Client{w: w, P: NewPeer(w, b, name), PeerID: "Server", LibID: "Client"}
+		ini := w.StartInitiator(InitCfg{HandlerBuf: buf, ConnBuf: buf, WriteDeadline: time.Minute, HeartBtInt: 30, Store: store}, a)
+		c.Settle()
+		return c, func() { ini.I.Close(); c.P.C.CloseNow() }
+	}
+	// ---- the earlier session: a Logon and k more inbound messages ----
+	c1, end1 := connect("earlier")
+	c1.Step(c1.Msg("A", LogonFields(30, "0", "", "")...))
+	for i := 0; i < k; i++ {
+		if w.W.Chance(1, 2) {
+			c1.Step(c1.Msg("0"))
+		} else {
+			c1.Step(c1.Msg("1", F(TagTestReqID, "h"+itoa(i))))
+		}
+	}
+	lastIn := c1.LastSeq()
+	if c1.P.EOF {
+		w.Inconclusive = "disconnected"
+		return
+	}
+	end1()
+	simrt.Sleep(10 * time.Millisecond)
+	simrt.Settle()
+	// ---- the later session ----
+	c2, end2 := connect("later")
+	received := lastIn + 1 + gap
+	c2.SetSeq(received - 1)
+	w.Cfg("expected_next", lastIn+1)
+	w.Cfg("received", received)
+	replies := c2.Step(c2.Msg("A", LogonFields(30, "0", "", "")...))
+	if !c2.checkFraming(replies) {
+		return
+	}
+	rr := filterType(replies, "2")
+	w.State(fmt.Sprintf("history/gap=%v", gap > 0))
+	if gap > 0 {
+		w.Probe("logon_gap_after_earlier_session")
+		if len(rr) != 1 {
+			w.Violate("gap-no-resend-request", role+"/history", fmt.Sprintf("an earlier session received up to 34=%d; Logon with 34=%d: got %q, want a ResendRequest", lastIn, received, typesOf(replies)))
+		} else {
+			checkGapRequest(w, role+"/history", rr[0].Raw, received, lastIn+1)
+		}
+	}
+	end2()
+	if acc != nil {
+		acc.A.Close()
+	}
+	simrt.Sleep(50 * time.Millisecond)
 }
 
 func fixStorageID(side string) fix.StorageID { return fix.StorageID{Side: fix.StorageSide(side)} }
